@@ -300,18 +300,22 @@ func (sv *c19Server) inject(f string) {
 	}
 }
 
-func (sv *c19Server) push(n int) {
+func (sv *c19Server) push(n int, slow bool) {
 	s := sv.newest()
 	if s == nil {
 		return
 	}
+	id := fmt.Sprintf("p%d", n)
+	if slow {
+		id = fmt.Sprintf("slow%d", n)
+	}
 	if s.raw != nil {
-		s.write(fmt.Sprintf(`{"id":"p%d","from":"%s","event":"received"}`, n, serverNode.String()))
+		s.write(fmt.Sprintf(`{"id":"%s","from":"%s","event":"received"}`, id, serverNode.String()))
 		return
 	}
 	ctx, cancel := context.WithTimeout(context.Background(), 300*time.Millisecond)
 	defer cancel()
-	_ = s.tr.Send(ctx, &lime.Notification{Envelope: lime.Envelope{ID: fmt.Sprintf("p%d", n), From: serverNode}, Event: lime.NotificationEventReceived})
+	_ = s.tr.Send(ctx, &lime.Notification{Envelope: lime.Envelope{ID: id, From: serverNode}, Event: lime.NotificationEventReceived})
 }
 
 func cpuTime() time.Duration {
@@ -344,6 +348,11 @@ func c19Run(scn *c19Scn) c19Obs {
 	mux := &lime.EnvelopeMux{}
 	mux.NotificationHandlerFunc(nil, func(ctx context.Context, n *lime.Notification) error {
 		atomic.AddInt32(&notifs, 1)
+		if strings.HasPrefix(n.ID, "slow") {
+			// a handler that takes its time: the listener goroutine is busy meanwhile, so whatever the
+			// application does next finds the build lock free
+			time.Sleep(700 * time.Millisecond)
+		}
 		return nil
 	})
 	client := lime.NewClient(cfg, mux)
@@ -403,10 +412,10 @@ func c19Run(scn *c19Scn) c19Obs {
 			before := sv.count()
 			waitUntil(2500*time.Millisecond, func() bool { return sv.count() > before })
 			stable(40*time.Millisecond, time.Second)
-		case a == "push":
+		case a == "push" || a == "slowpush":
 			pushN++
 			before := atomic.LoadInt32(&notifs)
-			sv.push(pushN)
+			sv.push(pushN, a == "slowpush")
 			ob.Tag = "push"
 			ob.A = waitUntil(400*time.Millisecond, func() bool { return atomic.LoadInt32(&notifs) > before })
 		case a == "watch":
@@ -489,7 +498,7 @@ func (c *c19Case) coq() string {
 			acts[i] = "ADown"
 		case a == "up":
 			acts[i] = "AUp"
-		case a == "push":
+		case a == "push" || a == "slowpush":
 			acts[i] = "APush"
 		case a == "watch":
 			acts[i] = "AWatch"
@@ -592,7 +601,12 @@ func runC19(env *Env) error {
 		c19Scn{Kind: "mem", Actions: []string{"down", "fault:eof", "send", "push", "up", "push", "send"}},
 		c19Scn{Kind: "tcp", Actions: []string{"down", "fault:reset", "up", "watch", "push"}},
 		c19Scn{Kind: "inproc", Actions: []string{"fault:finish", "fault:fail", "fault:eof", "push", "send"}},
-		c19Scn{Kind: "ws", Actions: []string{"fault:regress", "push", "fault:eof", "send", "watch"}})
+		c19Scn{Kind: "ws", Actions: []string{"fault:regress", "push", "fault:eof", "send", "watch"}},
+		// the application, not the listener (busy in a slow handler), is the one that finds the session gone
+		// and holds the build lock while the server is unreachable and its own deadline expires
+		c19Scn{Kind: "mem", Actions: []string{"slowpush", "down", "fault:eof", "send", "up", "send", "push"}},
+		c19Scn{Kind: "tcp", Actions: []string{"slowpush", "down", "fault:reset", "send", "send", "up", "push", "send"}},
+		c19Scn{Kind: "inproc", Actions: []string{"slowpush", "down", "fault:finish", "send", "up", "push"}})
 	nrand := env.Pick(24, 160)
 	for i := 0; i < nrand; i++ {
 		scns = append(scns, genC19(env, kinds[i%len(kinds)], 5+env.Rng.Intn(env.Pick(6, 14))))
